@@ -39,8 +39,15 @@ pub mod std {
         use ::core::num::NonZeroUsize;
         use ::core::time::Duration;
 
-        #[derive(Clone, Debug)]
+        #[derive(Debug)]
         pub struct Thread(usize);
+        impl Clone for Thread {
+            fn clone(&self) -> Self {
+                // reading a thread handle out of a waiter's cell is an access to that waiter's region
+                crate::mon::mem_read(self as *const Thread as usize, "Thread::clone");
+                Thread(self.0)
+            }
+        }
         impl Thread {
             pub fn unpark(&self) {
                 crate::exec::unpark(self.0)
